@@ -201,14 +201,17 @@ def render(lines):
             out.append("#else")
         elif k == "X":
             out.append("#endif")
+        elif k == "H":
+            out.append(f'#include "{l[1]}"')
         nodes.append([len(out)])
     if run:
         nodes.append(run)
     return "\n".join(out) + "\n", nodes
 
 
-def reached(lines, defines):
-    """indices (in node order) of the nodes the visitor associates for one compile command."""
+def reached(lines, defines, includes=None):
+    """indices (in node order) of the nodes the visitor associates for one compile command;
+    when [includes] is a list, the target file indices of the reached #include lines are appended to it."""
     hit, stack, node, run_open = [], [], 0, False
     live = True
     for l in lines:
@@ -221,7 +224,12 @@ def reached(lines, defines):
                 node += 1
             continue
         run_open = False
-        if k in ("I", "N"):
+        if k == "H":
+            if live:
+                hit.append(node)
+                if includes is not None:
+                    includes.append(l[2])
+        elif k in ("I", "N"):
             if live:
                 hit.append(node)
                 t = (l[1] in defines) == (k == "I")
@@ -246,6 +254,18 @@ def reached(lines, defines):
             live = outer
         node += 1
     return hit
+
+
+def reach_all(files, idx, defines, depth=0):
+    """(path, node) pairs associated by one compile command of files[idx]: its own nodes and,
+    through every reached #include, the nodes of the included files (textual order, repeats kept)."""
+    p, lines = files[idx]
+    inc = []
+    out = [[p, n] for n in reached(lines, defines, inc)]
+    if depth < 8:
+        for t in inc:
+            out += reach_all(files, t, defines, depth + 1)
+    return out
 
 
 def pstr(p):
@@ -335,7 +355,7 @@ class C14(Check):
         files, used = [], set()
         for i in range(nf):
             d = r.choice(dirs)
-            ext = r.choice([".c", ".c", ".cpp", ".h"])
+            ext = r.choice([".c", ".c", ".cpp", ".h", ".h"])
             name = r.choice(["m", "n", "k", "Z", "a", "b"]) + str(r.randint(0, 2)) + ext
             p = d + [name]
             if pstr(p) in used:
@@ -346,6 +366,16 @@ class C14(Check):
             else:
                 lines = [["C", r.randint(1, 2), r.randint(0, 1)]] + self.gen_lines(macros)
             files.append([p, lines])
+        files = [f for f in files if not f[0][-1].endswith(".h")] + [f for f in files if f[0][-1].endswith(".h")]
+        # #include lines: a file may include headers that come later in the list (no cycles)
+        for i, (p, lines) in enumerate(files):
+            later = [j for j in range(i + 1, len(files)) if files[j][0][-1].endswith(".h")]
+            if later and r.random() < 0.75:
+                for _ in range(r.randint(1, 2)):
+                    j = r.choice(later)
+                    rel = os.path.relpath(pstr(files[j][0]), os.path.dirname(pstr(p)) or ".")
+                    pos = r.randint(0, len(lines))
+                    lines.insert(pos, ["H", rel, j])
         srcs = [i for i, f in enumerate(files) if not f[0][-1].endswith(".h")]
         if not srcs:
             files.append([["main.c"], [["C", 1, 0]]])
@@ -399,13 +429,11 @@ class C14(Check):
         events = []
         for name, defs, comp in case["plats"]:
             for i in comp:
-                p, lines = case["files"][i]
-                events.append([name, [[p, n] for n in reached(lines, defs)]])
+                events.append([name, reach_all(case["files"], i, defs)])
         name, defs, comp = case["plats"][0]
         cev = []
         for i in comp:
-            p, lines = case["files"][i]
-            cev.append(["cli", [[p, n] for n in reached(lines, defs)]])
+            cev.append(["cli", reach_all(case["files"], i, defs)])
         return files, events, cev
 
     def encode(self, case):
@@ -669,17 +697,17 @@ class C14(Check):
     # ---------------------------------------------------------------- S
     def contribs_of(self, case):
         """the table of a P case from the definitions: every physical code line with the set of platforms using it."""
-        out = []
-        per_file = {}
-        for fi, (p, lines) in enumerate(case["files"]):
-            _, nodes = render(lines)
-            sets = [set() for _ in nodes]
-            for name, defs, comp in case["plats"]:
-                if fi in comp:
-                    for n in reached(lines, defs):
-                        sets[n].add(name)
-            rows = [[sorted(s), len(n)] for s, n in zip(sets, nodes)]
-            per_file[pstr(p)] = rows
+        nodes_of = {pstr(p): render(lines)[1] for p, lines in case["files"]}
+        sets = {f: [set() for _ in ns] for f, ns in nodes_of.items()}
+        for name, defs, comp in case["plats"]:
+            for fi in comp:
+                for p, n in reach_all(case["files"], fi, defs):
+                    sets[pstr(p)][n].add(name)
+        out, per_file = [], {}
+        for p, _ in case["files"]:
+            f = pstr(p)
+            rows = [[sorted(s), len(n)] for s, n in zip(sets[f], nodes_of[f])]
+            per_file[f] = rows
             out += rows
         return out, per_file
 
@@ -698,10 +726,14 @@ class C14(Check):
                 by.setdefault(render(lines)[0], []).append(pstr(p))
             o["dups"] = sorted(sorted(g) for g in by.values() if len(g) > 1)
             name, defs, comp = case["plats"][0]
+            hits = {}
+            for fi in comp:
+                for p, n in reach_all(case["files"], fi, defs):
+                    hits.setdefault(pstr(p), set()).add(n)
             cov = []
-            for fi, (p, lines) in enumerate(case["files"]):
+            for p, lines in case["files"]:
                 text, nodes = render(lines)
-                hit = set(reached(lines, defs)) if fi in comp else set()
+                hit = hits.get(pstr(p), set())
                 used = [ln for i, n in enumerate(nodes) if i in hit for ln in n]
                 unused = [ln for i, n in enumerate(nodes) if i not in hit for ln in n]
                 cov.append([pstr(p), hashlib.sha512(text.encode()).hexdigest(), used, unused])
@@ -872,7 +904,11 @@ class _C14(C14):
 
     def generate(self):
         cases = super().generate()
-        allc = self.corpus() + cases
+        allc, seen = [], set()
+        for c in self.corpus() + cases:
+            if self.key(c) not in seen:
+                seen.add(self.key(c))
+                allc.append(c)
         for c in allc:
             self.stats["kinds"][c["k"]] += 1
             if c["k"] == "T":
@@ -886,6 +922,12 @@ class _C14(C14):
                 h[str(len(c["files"]))] = h.get(str(len(c["files"])), 0) + 1
                 h = self.stats["p_platforms_hist"]
                 h[str(len(c["plats"]))] = h.get(str(len(c["plats"])), 0) + 1
+                inc = sum(1 for _, ls in c["files"] for l in ls if l[0] == "H")
+                per_file = self.oracle(c)["per_file"]
+                used_hdr = any(f.endswith(".h") and any(s for s, _ in rows) for f, rows in per_file.items())
+                self.stats["p_include_lines"] = self.stats.get("p_include_lines", 0) + inc
+                self.stats["p_cases_with_header_reached_through_include"] = \
+                    self.stats.get("p_cases_with_header_reached_through_include", 0) + int(used_hdr)
         self.prepare(allc)
         return cases
 
